@@ -2204,8 +2204,9 @@ static int wildcardMatch(char *wild, char *s)
         {
             return -1;
         }
-        if ((e = Strchr(s, '.')) == NULL)
+        if ((e = Strchr(s, '.')) == NULL || e == s)
         {
+            /* The wildcard stands for one whole, non-empty label. */
             return -1;
         }
         if (strcasecmp(c, e) == 0)
